@@ -73,7 +73,7 @@ def generate(rng, tier, seed):
             for ks in (16, 24, 32):
                 for _ in range(reps):
                     # keys come from a small pool so that the same key is used by many consecutive calls
-                    pool = KEYPOOL.setdefault(ks, [rb(rng, ks) for _ in range(3)])
+                    pool = KEYPOOL.setdefault(ks, [rb(rng, ks) for _ in range(3)] + [b"1" * ks, (b"00112233445566778899AABBCCDDEEFF" * 2)[:ks], bytes(rng.choice(b"0123456789abcdefABCDEF") for _ in range(ks))])
                     pin, pan, key = digits(rng, plen), pats[rng.randrange(len(pats))](pan4len), rng.choice(pool)
                     c = Case("format-4", {"pin_len": plen, "pan_len": pan4len, "key": ks})
                     rejected_first(rng, [("pinblock.encode_pin_field_iso_4", "pin"), ("pinblock.encode_pan_field_iso_4", "pan"),
